@@ -341,7 +341,8 @@ type c12Exec struct {
 	w2err    []string
 	disc     []string
 	finalKey string
-	problems []string // harness-level problems (divergence, overrun)
+	problems []string // the execution exceeded the step horizon
+	diverged string   // replay divergence (nondeterminism the harness does not own)
 }
 
 func c12Run(sc c12Scenario, prefix []int) (*c12Exec, error) {
@@ -397,11 +398,9 @@ func c12Run(sc c12Scenario, prefix []int) (*c12Exec, error) {
 	ci.h.s = nil
 	ci.h.lock.Attach(nil)
 	ex.disc = ci.h.disc
-	if s.Diverged != "" {
-		ex.problems = append(ex.problems, s.Diverged)
-	}
+	ex.diverged = s.Diverged
 	if s.Overrun {
-		ex.problems = append(ex.problems, "execution exceeded the step horizon")
+		ex.problems = append(ex.problems, "execution exceeded the horizon of 20000 scheduling points")
 	}
 	if !s.Deadlock && s.Diverged == "" && !s.Overrun {
 		ex.finalKey = DumpMap(ci.m)
@@ -540,7 +539,7 @@ func c12Check(sc c12Scenario, ex *c12Exec, exp *c12Expect) [][2]string {
 	var out [][2]string
 	add := func(sig, detail string) { out = append(out, [2]string{sig, detail}) }
 	for _, p := range ex.problems {
-		add("HARNESS: "+p, "")
+		add("no progress: "+p, "")
 	}
 	if len(ex.problems) > 0 {
 		return out
@@ -704,6 +703,14 @@ func c12Explore(c *Ctx, sc c12Scenario, bound int, maxExecs int64, report func(s
 		if e != nil {
 			err = e
 			capped = true
+			return
+		}
+		if ex.diverged != "" {
+			// the same choices led to different enabled sets than in the execution the prefix was
+			// taken from: a source of nondeterminism the harness does not own. Never a verdict on
+			// the property - the subtree is skipped and the run is reported as not exhaustive.
+			c.Col.Note("HARNESS: " + sc.Name + ": " + ex.diverged)
+			c.Cov.NotExhaustive("nondeterministic execution in scenario " + sc.Name + " (" + ex.diverged + ")")
 			return
 		}
 		execs++
@@ -877,6 +884,9 @@ func init() {
 		if err != nil {
 			return nil, err
 		}
+		if ex.diverged != "" {
+			return nil, fmt.Errorf("the recorded schedule cannot be replayed: %s", ex.diverged)
+		}
 		var out []Violation
 		for _, v := range c12Check(cs.Sc, ex, exp) {
 			out = append(out, Violation{Prop: "C12", Sig: v[0], Detail: v[1], Case: Case{Engine: "sched12", Payload: payload}})
@@ -969,6 +979,24 @@ func checkC12(c *Ctx) {
 	} else if err != nil {
 		c.Col.Note("race pass failed to run: " + err.Error())
 		c.Cov.NotExhaustive("race pass failed to run")
+	}
+	for _, fatal := range []string{"fatal error: concurrent map", "fatal error: sync: "} {
+		// unrecoverable runtime errors that only unsynchronized access to the forest's maps or a
+		// mishandled lock can cause (the harness goroutines share nothing else that is written)
+		if idx := strings.Index(stderr.String(), fatal); idx >= 0 {
+			rep := stderr.String()[idx:]
+			line := rep
+			if k := strings.Index(line, "\n"); k > 0 {
+				line = line[:k]
+			}
+			if len(rep) > 3000 {
+				rep = rep[:3000]
+			}
+			os.MkdirAll("/verif/replays", 0o755)
+			os.WriteFile("/verif/replays/C12-race-report.txt", []byte(stderr.String()), 0o644)
+			c.Col.Add(Violation{Prop: "C12", Sig: "the free-running pass died with a runtime " + line, Detail: rep, Case: mkCase("race", map[string]string{"cmd": raceBin + " c12race " + c.Tier})})
+			break
+		}
 	}
 	if races > 0 {
 		// attribute to the first utreexo frames of the first report
